@@ -114,7 +114,7 @@ AlphaWhy(e) ==
           IN IF IsFin(outs[1]) /\ MixCompOK(e.t, ai, bi, f, ao) /\ BetweenComp(e.t, ai, bi, ao) THEN "ok" ELSE "alpha-not-mixed-linearly"
      ELSE IF e.fam = "Clamp" THEN (IF IsFin(outs[1]) /\ DyEq(ao, Clamp01(ai)) THEN "ok" ELSE "alpha-not-clamped")
      ELSE IF e.fam \in ArithFams
-     THEN LET y == IF e.in2 # <<>> THEN Dy(e.in2[N(e) + 1]) ELSE Dy(NegNum(NegNum(e.args[1])))
+     THEN LET y == IF e.in2 # <<>> THEN Dy(e.in2[N(e) + 1]) ELSE Dy(e.args[1])
           IN IF ~IsFin(outs[1]) THEN (IF e.fam = "Div" /\ DyIsZero(y) THEN "ok" ELSE "alpha-non-finite")
              ELSE IF ArithCompOK(e.fam, e.t, ai, y, ao) THEN "ok" ELSE "alpha-arith-value"
      ELSE IF \A k \in DOMAIN outs : outs[k] = AlphaIn(e) THEN "ok" ELSE "alpha-touched"
@@ -126,11 +126,12 @@ VarWhy(e) ==
            wrapped == e.form \in Wrapped
            want == IF wrapped THEN N(e) + 1 ELSE N(e)
            args == IF e.form \in Blanket THEN NegArgs(e.args) ELSE e.args
+           aw == AlphaWhy(e)
        IN IF Len(e.in) # want \/ (e.in2 # <<>> /\ Len(e.in2) # want) \/ (\E k \in DOMAIN e.out : Len(e.out[k]) # want) THEN "shape"
           ELSE IF <<e.fam, e.m, e.node, e.t, Col(e, e.in), Col(e, e.in2), args>> # sig THEN "inputs-differ-from-group"
           ELSE IF e.form \in Blanket /\ e.fam \notin FactorFams THEN "unknown-form"
           ELSE IF Cols(e, e.out) # grp.ref THEN "differs-from-by-value"
-          ELSE IF wrapped /\ AlphaWhy(e) # "ok" THEN AlphaWhy(e)
+          ELSE IF wrapped /\ aw # "ok" THEN aw
           ELSE IF e.form = "alpha_assign" /\ grp.aref # <<>> /\ e.out # grp.aref THEN "alpha-assign-differs"
           ELSE IF e.form = "prealpha_assign" /\ grp.pref # <<>> /\ e.out # grp.pref THEN "prealpha-assign-differs"
           ELSE "ok"
